@@ -26,9 +26,48 @@ def cfg(rot, place, window, sym, mode, invs=INVS, placelist="Empty"):
              " PlaceListCases <- %s" % placelist,
              " WindowCases <- %s" % window, " SymCases <- %s" % sym, ' EmitMode = "%s"' % mode]
     lines += ["INVARIANT %s" % i for i in invs]
+    lines.append("PROPERTY C14_InputsUntouched")
     if mode == "tr":
         lines.append("ACTION_CONSTRAINT EmitTR")
     return "\n".join(lines) + "\n"
+
+
+class ArgGuard:
+    """Array-valued arguments are handed to cryoCAT as the caller's own objects (no defensive copies), are REUSED for the
+    following calls, and must be bit-for-bit what they were after every call (MapGeom.tla: inp' = inp in every action)."""
+
+    def __init__(self):
+        self.items = {}
+
+    def track(self, name, obj):
+        snap = obj.copy(deep=True) if hasattr(obj, "columns") else np.array(obj, copy=True)
+        self.items[name] = (obj, snap)
+        return obj
+
+    def changed(self):
+        out = []
+        for name, (obj, snap) in self.items.items():
+            if hasattr(obj, "columns"):
+                same = obj.shape == snap.shape and list(obj.index) == list(snap.index) and list(obj.columns) == list(snap.columns) \
+                    and np.array_equal(obj.to_numpy(dtype=float), snap.to_numpy(dtype=float), equal_nan=True)
+            else:
+                cur = np.asarray(obj)
+                same = cur.shape == snap.shape and cur.dtype == snap.dtype and np.array_equal(cur, snap, equal_nan=(cur.dtype.kind == "f"))
+            if not same:
+                out.append(name)
+        return out
+
+    def check(self, ctx, case, sig, call):
+        bad = self.changed()
+        if bad:
+            ctx.fail("C14_InputsUntouched", "%s changed its argument(s) %s in place" % (call, bad), case, dict(sig, argument=bad[0]))
+            for name in bad:        # judge the following calls on the intended inputs again
+                obj, snap = self.items[name]
+                if hasattr(obj, "columns"):
+                    obj.iloc[:, :] = snap.to_numpy()
+                else:
+                    obj[...] = snap
+        return not bad
 
 
 def dense_volume(rng, dims):
@@ -51,15 +90,21 @@ def run_rotate(ctx, case):
     dims = case["dims"]
     vol = dense_volume(rng, dims)
     ang = geo.euler_for_code(case["r"], rng)
-    forms = [("rotation_angles", lambda: cryomap.rotate(vol.copy(), rotation_angles=list(ang))),
-             ("rotation_angles_array", lambda: cryomap.rotate(vol.copy(), rotation_angles=np.array(ang))),
-             ("rotation_transposed", lambda: cryomap.rotate(vol.copy(), rotation=rot_from_code(case["r"]), transpose_rotation=True))]
     ivol = np.rint(vol).astype(np.int16)          # the same kind of map stored as integers
-    forms.append(("rotation_angles_int16", lambda: cryomap.rotate(ivol.copy(), rotation_angles=list(ang))))
+    g = ArgGuard()
+    g.track("input_map", vol)
+    g.track("input_map_int16", ivol)
+    arr = g.track("rotation_angles", np.array(ang, dtype=np.float64))      # one angle array, used for several calls
+    forms = [("rotation_angles_array", lambda: cryomap.rotate(vol, rotation_angles=arr)),
+             ("rotation_angles", lambda: cryomap.rotate(vol, rotation_angles=list(ang))),
+             ("rotation_transposed", lambda: cryomap.rotate(vol, rotation=rot_from_code(case["r"]), transpose_rotation=True)),
+             ("rotation_angles_int16", lambda: cryomap.rotate(ivol, rotation_angles=arr)),
+             ("rotation_angles_array", lambda: cryomap.rotate(vol, rotation_angles=arr))]
     scale = float(np.max(np.abs(vol)))
     for name, fn in forms:
         out, err = core.call_guarded(fn)
         sig = {"op": "rotate", "form": name, "box": "cubic" if len(set(dims)) == 1 else "noncubic"}
+        g.check(ctx, case, sig, "rotate")
         if err is not None:
             ctx.fail("call_raises", err, case, sig)
             continue
@@ -117,18 +162,23 @@ def run_place(ctx, case):
     cdims = tuple(case["cdims"])
     form = case["variant"] % 3
 
+    g = ArgGuard()
+    g.track("input_object", tmpl)
+    g.track("motl.df", motl.df)
+
     def call():
         if form == 0:
-            return cryomap.place_object(tmpl.copy(), motl, volume_shape=cdims, feature_to_color=feature)
+            return cryomap.place_object(tmpl, motl, volume_shape=cdims, feature_to_color=feature)
         if form == 1:
-            return cryomap.place_object(tmpl.copy(), motl, volume=np.zeros(cdims), feature_to_color=feature)
+            return cryomap.place_object(tmpl, motl, volume=np.zeros(cdims), feature_to_color=feature)
         if feature == "object_id":
-            return cryomap.place_object(tmpl.copy(), motl, volume_shape=list(cdims))
-        return cryomap.place_object(tmpl.copy(), motl, volume_shape=list(cdims), feature_to_color=feature)
+            return cryomap.place_object(tmpl, motl, volume_shape=list(cdims))
+        return cryomap.place_object(tmpl, motl, volume_shape=list(cdims), feature_to_color=feature)
 
     out, err = core.call_guarded(call)
     sig = {"op": "place_object", "poses": "one" if n == 1 else "many", "index": index_kind,
            "template": ["float64", "int8", "int16", "bool"][tkind]}
+    g.check(ctx, case, sig, "place_object")
     if err is not None:
         ctx.fail("call_raises", err, case, sig)
     else:
@@ -149,15 +199,18 @@ def run_place(ctx, case):
         cell = case["tmpl"]["cells"][j]
         inplace = (case["variant"] + j) % 2 == 0
 
+        sv = g.track("shift", np.array(cell["o"], dtype=np.float64))
+
         def shifted():
-            m2 = cryomotl.Motl(motl.df.copy())
             if inplace:
-                m2.shift_positions(np.array(cell["o"], dtype=float))
+                m2 = cryomotl.Motl(motl.df.copy())
+                m2.shift_positions(sv)
             else:
-                m2 = m2.shift_positions(np.array(cell["o"], dtype=float), inplace=False)
+                m2 = motl.shift_positions(sv, inplace=False)      # the list itself must stay as it is
             return np.asarray(m2.get_coordinates(), dtype=float)
         got, err = core.call_guarded(shifted)
         sig2 = {"op": "shift_positions", "poses": "one" if n == 1 else "many", "index": index_kind, "inplace": inplace}
+        g.check(ctx, case, sig2, "shift_positions")
         if err is not None:
             ctx.fail("call_raises", err, case, sig2)
             break
@@ -206,8 +259,13 @@ def run_placelist(ctx, case):
         cols["object_id"][i] = p["colour"]
     motl = cryomotl.Motl(motlutil.vary_index(motlutil.df_from_cols(cols), case["variant"] // 3))
     cdims = tuple(case["cdims"])
-    out, err = core.call_guarded(lambda: cryomap.place_object([t.copy() for t in tmpls], motl, volume_shape=cdims))
+    g = ArgGuard()
+    for i_, t_ in enumerate(tmpls):
+        g.track("input_object[%d]" % i_, t_)
+    g.track("motl.df", motl.df)
+    out, err = core.call_guarded(lambda: cryomap.place_object(tmpls, motl, volume_shape=cdims))
     sig = {"op": "place_object", "poses": "many", "template": "list"}
+    g.check(ctx, case, sig, "place_object")
     if err is not None:
         ctx.fail("call_raises", err, case, sig)
     else:
@@ -256,19 +314,25 @@ def run_window(ctx, case):
     want = expected_window(vol, case["axes"], mean)
     cls = window_class(case)
     centre, shape = case["centre"], case["shape"]
-    calls = [("extract_subvolume", lambda: cryomap.extract_subvolume(vol.copy(), np.array(centre, dtype=float), np.array(shape)))]
+    g = ArgGuard()
+    g.track("volume", vol)
+    cen = g.track("coordinates", np.array(centre, dtype=np.float64))
+    shp = g.track("subvolume_shape", np.array(shape))
+    calls = [("extract_subvolume", lambda: cryomap.extract_subvolume(vol, cen, shp)),
+             ("extract_subvolume", lambda: cryomap.extract_subvolume(vol, cen, shp))]
     if case["variant"] % 2:
-        calls.append(("extract_subvolume", lambda: cryomap.extract_subvolume(vol.copy(), np.array(centre), tuple(shape))))
+        calls.append(("extract_subvolume", lambda: cryomap.extract_subvolume(vol, np.array(centre), tuple(shape))))
     if cls == "inside":
-        calls.append(("crop", lambda: cryomap.crop(vol.copy(), tuple(shape), crop_coord=tuple(centre))))
+        calls.append(("crop", lambda: cryomap.crop(vol, shp, crop_coord=cen)))
         if list(centre) == [d // 2 for d in case["vdims"]]:
-            calls.append(("crop", lambda: cryomap.crop(vol.copy(), list(shape))))
+            calls.append(("crop", lambda: cryomap.crop(vol, list(shape))))
     covering = all(m.count(-1) + case["vdims"][ax] == len(m) for ax, m in enumerate(case["axes"]))
     if covering and list(centre) == [d // 2 for d in case["vdims"]] and all(d % 2 == 0 for d in case["vdims"]):
-        calls.append(("pad", lambda: cryomap.pad(vol.copy(), tuple(shape))))
+        calls.append(("pad", lambda: cryomap.pad(vol, tuple(shape))))
     for name, fn in calls:
         out, err = core.call_guarded(fn)
         sig = {"op": name, "window": cls}
+        g.check(ctx, case, sig, name)
         if err is not None:
             ctx.fail("call_raises", err, case, sig)
             continue
@@ -291,8 +355,11 @@ def run_sym(ctx, case):
     vol = dense_volume(rng, case["dims"])
     n = case["n"]
     arg = n if case["variant"] % 2 == 0 else "C%d" % n
-    out, err = core.call_guarded(cryomap.symmetrize_volume, vol.copy(), arg)
+    g = ArgGuard()
+    g.track("vol", vol)
+    out, err = core.call_guarded(cryomap.symmetrize_volume, vol, arg)
     sig = {"op": "symmetrize_volume", "n": n}
+    g.check(ctx, case, sig, "symmetrize_volume")
     if err is not None:
         ctx.fail("call_raises", err, case, sig)
     else:
@@ -366,7 +433,7 @@ def replay(ctx, case):
     if k in HANDLERS:
         spec_expected(ctx, case)
         HANDLERS[k](ctx, case)
-    elif k in ("l3_rotblob", "l3_sym", "l3_dtype"):
+    elif k in ("l3_rotblob", "l3_sym", "l3_dtype", "l3_grey"):
         run_l3(ctx, [case], name="replay")
     else:
         raise core.MachineryError("unknown case kind %r" % k)
@@ -415,22 +482,27 @@ def rotblob_event(case):
     v = np.array(case["v"])
     R = geo.zxz_matrix(*case["ang"])
     vol = blob(dims, c + v, case["sigma"])
+    guard = ArgGuard()
+    guard.track("input_map", vol)
+    arr = guard.track("rotation_angles", np.array(case["ang"], dtype=np.float64))
     if case["form"] == 0:
-        out = cryomap.rotate(vol.copy(), rotation_angles=list(case["ang"]))
+        out = cryomap.rotate(vol, rotation_angles=list(case["ang"]))
     elif case["form"] == 1:
-        out = cryomap.rotate(vol.copy(), rotation_angles=np.array(case["ang"]))
+        out = cryomap.rotate(vol, rotation_angles=arr)
     else:
-        out = cryomap.rotate(vol.copy(), rotation=Rotation.from_matrix(R), transpose_rotation=True)
+        out = cryomap.rotate(vol, rotation=Rotation.from_matrix(R), transpose_rotation=True)
     out = np.asarray(out, dtype=float)
-    ev = {"kind": "rotblob", "com": -1, "back": 0, "anti": 0}
+    ev = {"kind": "rotblob", "com": -1, "back": 0, "anti": 0, "args_ok": not guard.changed()}
     tot = float(out.sum())
     if out.shape == vol.shape and np.all(np.isfinite(out)) and tot > 1e-6:
         g = np.meshgrid(*[np.arange(d, dtype=float) for d in dims], indexing="ij")
         com = np.array([float((g[i] * out).sum()) / tot for i in range(3)])
         ev["com"] = int(min(999999999, round(float(np.linalg.norm(com - (c + R @ v))) * 1e4)))
         ev["anti"] = int(min(999999999, round(float(np.linalg.norm(com - (c + R.T @ v))) * 1e4)))
-        phi, theta, psi = case["ang"]
-        back = np.asarray(cryomap.rotate(out.copy(), rotation_angles=[-psi, -theta, -phi]), dtype=float)
+        # the inverse orientation zxz(-psi, -theta, -phi), derived from the caller's angle array AFTER it was used
+        inv = -arr[::-1] if case["form"] == 1 else [-case["ang"][2], -case["ang"][1], -case["ang"][0]]
+        back = np.asarray(cryomap.rotate(out.copy(), rotation_angles=inv), dtype=float)
+        ev["args_ok"] = ev["args_ok"] and not guard.changed()
         if back.shape == vol.shape and np.all(np.isfinite(back)):
             ev["back"] = int(round(corr(vol, back) * 1e6))
     return [ev]
@@ -519,13 +591,66 @@ def dtype_event(case):
     return [ev]
 
 
+def gen_grey(rng, idx):
+    S = rng.choice([12, 14, 16])
+    c = S // 2
+    blobs = [{"c": [c + rng.uniform(-1.5, 1.5) for _ in range(3)], "sigma": rng.uniform(1.2, 2.2), "w": rng.uniform(0.4, 1.0)}
+             for _ in range(rng.randint(2, 3))]
+    poses = [{"pos": [rng.randint(S // 2 + 1, 40 - S // 2 + 1) for _ in range(3)],
+              "ang": [rng.uniform(-180, 180), rng.uniform(10, 170), rng.uniform(-180, 180)], "colour": i + 1}
+             for i in range(rng.randint(1, 3))]
+    return {"kind": "l3_grey", "id": idx, "S": S, "blobs": blobs, "scale": rng.choice([1.0, 1.0, 0.6, 5.0]), "poses": poses,
+            "label_k": rng.randrange(1000)}
+
+
+def grey_event(case):
+    """A grey-valued template given as ONE array and as a list (one copy per particle), generic orientations: the two forms
+    must agree, and each particle's stamp must be the template rotated by its orientation and THEN cut at 0.1 (the window
+    of the container around the particle - MapGeom.tla!WStart - against cryomap.rotate followed by the threshold)."""
+    from cryocat import cryomap, cryomotl
+    S = case["S"]
+    tm = sum(b["w"] * blob([S, S, S], b["c"], b["sigma"]) for b in case["blobs"])
+    tm = tm / float(tm.max()) * case["scale"]
+    n = len(case["poses"])
+
+    def motl_of(poses):
+        cols = motlutil.empty_rows(len(poses))
+        for i, p in enumerate(poses):
+            cols["x"][i], cols["y"][i], cols["z"][i] = p["pos"]
+            cols["phi"][i], cols["theta"][i], cols["psi"][i] = p["ang"]
+            cols["tomo_id"][i] = 1
+            cols["subtomo_id"][i] = i + 1
+            cols["object_id"][i] = p["colour"]
+        return cryomotl.Motl(motlutil.vary_index(motlutil.df_from_cols(cols), case["label_k"]))
+    g = ArgGuard()
+    g.track("input_object", tm)
+    motl = motl_of(case["poses"])
+    cdims = (40, 40, 40)
+    single = np.asarray(cryomap.place_object(tm, motl, volume_shape=cdims), dtype=float)
+    listed = np.asarray(cryomap.place_object([tm for _ in range(n)], motl, volume_shape=cdims), dtype=float)
+    ev = {"kind": "grey", "single_list": int(np.count_nonzero(single != listed)) if single.shape == listed.shape else -1,
+          "single_rot": [], "list_rot": [], "stamped": int(np.count_nonzero(single)), "args_ok": True}
+    for p in case["poses"]:
+        one = motl_of([p])
+        mask = np.asarray(cryomap.rotate(tm, rotation_angles=list(p["ang"])), dtype=float) > 0.1
+        want = np.where(mask, float(p["colour"]), 0.0)
+        st = [p["pos"][a] - 1 - S // 2 for a in range(3)]
+        for key, obj in (("single_rot", tm), ("list_rot", [tm])):
+            cont = np.asarray(cryomap.place_object(obj, one, volume_shape=cdims), dtype=float)
+            win = cont[st[0]:st[0] + S, st[1]:st[1] + S, st[2]:st[2] + S]
+            outside = int(np.count_nonzero(cont)) - int(np.count_nonzero(win))
+            ev[key].append(int(np.count_nonzero(win != want)) + outside if win.shape == want.shape else -1)
+    ev["args_ok"] = not g.changed()
+    return [ev]
+
+
 def run_l3(ctx, cases, name="trace"):
     traces = []
     for case in cases:
-        fn = {"l3_rotblob": rotblob_event, "l3_dtype": dtype_event}.get(case["kind"], sym_event)
+        fn = {"l3_rotblob": rotblob_event, "l3_dtype": dtype_event, "l3_grey": grey_event}.get(case["kind"], sym_event)
         evs, err = core.call_guarded(fn, case)
         if err is not None:
-            ctx.fail("call_raises", err, case, {"op": {"l3_rotblob": "rotate", "l3_dtype": "rotate/place_object"}.get(case["kind"], "symmetrize_volume")})
+            ctx.fail("call_raises", err, case, {"op": {"l3_rotblob": "rotate", "l3_dtype": "rotate/place_object", "l3_grey": "place_object"}.get(case["kind"], "symmetrize_volume")})
             evs = []
         traces.append({"id": case["id"], "ev": evs})
         ctx.ran(case)
@@ -545,7 +670,8 @@ def run_l3(ctx, cases, name="trace"):
         if not v["ok"]:
             ev = traces[i]["ev"][v["step"] - 1]
             sig = {"op": "rotate", "form": "real"} if ev["kind"] == "rotblob" else \
-                  ({"op": "rotate/place_object", "form": "storage_type"} if ev["kind"] == "dtype" else {"op": "symmetrize_volume", "n": ev["n"]})
+                  ({"op": "rotate/place_object", "form": "storage_type"} if ev["kind"] == "dtype" else
+                   ({"op": "place_object", "template": "grey"} if ev["kind"] == "grey" else {"op": "symmetrize_volume", "n": ev["n"]}))
             ctx.fail(v["clause"], "event rejected by MapGeomTrace: %s" % json.dumps(ev), case, sig)
     return res, traces
 
@@ -565,6 +691,10 @@ def run(ctx):
         "windows: integral centres and even shapes; crop only for windows inside the volume, pad only for even sizes",
         "a map is its values, not its storage type: integer-valued maps / templates stored as int8, int16, int32, uint8, bool, "
         "float32 must rotate and stamp like their float64 copy (deviation <= 1e-3 of the value range, identical containers)",
+        "array-valued arguments are passed as the caller's objects, reused for later calls and must be unchanged afterwards "
+        "(the container given as volume= is the one documented in-place argument and is not tracked)",
+        "grey templates: the single-array and the list form must give identical containers, equal to cryomap.rotate of the "
+        "template followed by the 0.1 threshold inside the particle's window",
         "interpolation accuracy is bounded, not decided: centre of mass within 0.25 voxel, inverse-rotation correlation >= 0.98,"
         " symmetrised-map invariance correlation >= 0.99, total density within 5 %",
     ]
@@ -625,4 +755,7 @@ def run(ctx):
     cases = [gen_rotblob(ctx.rng, k + 1, big) for k in range(nrot)]
     cases += [gen_sym(ctx.rng, nrot + k + 1, big) for k in range(nsym)]
     cases += [gen_dtype(ctx.rng, nrot + nsym + k + 1) for k in range(ctx.pick(40, 1200))]
+    cases += [gen_grey(ctx.rng, len(cases) + k + 1) for k in range(ctx.pick(40, 1200))]
+    for k, c in enumerate(cases):
+        c["id"] = k + 1
     run_l3(ctx, cases)
